@@ -2,10 +2,12 @@
 (* Enumerates the domain instances and cube points of the C07 campaign and    *)
 (* checks the definitional facts of the specification itself.                 *)
 EXTENDS Domains, Json
-CONSTANTS MaxU, MaxN, GridN
+CONSTANTS MaxU, MaxN, GridN, DegMax
 Dom(k, l, u, n, q) == [kind |-> k, l |-> l, u |-> u, n |-> n, q |-> q]
 IntDoms  == {Dom(k, l, u, 0, 1) : k \in {"randint"}, l \in 0..MaxU, u \in 0..MaxU}
 LogDoms  == {Dom("lograndint", l, u, 0, 1) : l \in 1..MaxU, u \in 1..MaxU}
+            \cup {Dom("lograndint", k, k, 0, 1) : k \in 1..DegMax}          \* degenerate lower == upper: exp(log k) rounding
+            \cup {Dom("lograndint", k, k + 1, 0, 1) : k \in 1..DegMax}
 QDoms    == {Dom("qrandint", 2 * a, 2 * b, 0, 2) : a \in 0..2, b \in 0..3}
 CatDoms  == {Dom(k, 0, 0, n, 1) : k \in {"choice", "ordinal", "ordinal_nn", "ordinal_nnlog"}, n \in 1..MaxN}
 FinDoms  == {Dom(k, l, u, n, 1) : k \in {"finrange", "finrange_int", "logfinrange", "logfinrange_int"}, l \in 1..2, u \in 1..MaxU, n \in 1..MaxN}
